@@ -282,7 +282,13 @@ def result(ctx, code):
     return M.LDAPResult(M.LDAPResultCode(code), "", "")
 
 
-def message_for(ctx, op, mid, code, ctl=None):
+def _opname(ctx, tag):
+    """an extended-operation name: any 3 characters out of digits and dots (so also fragments of
+    the notice-of-disconnection OID); only the exact notice OID has a meaning to the session"""
+    return ctx.str(f"{tag}.name", 3, 0x2E, 0x39) if tag else "1.2"
+
+
+def message_for(ctx, op, mid, code, ctl=None, tag=None):
     """the message a peer would send for a recv_* op"""
     M, F, A = ctx.L.messages, ctx.L.filter, ctx.L.auth
     k = op[5:]
@@ -296,7 +302,7 @@ def message_for(ctx, op, mid, code, ctl=None):
     if k == "search_done":
         return M.SearchResultDone(mid, ctl, result(ctx, code))
     if k == "extended_response":
-        return M.ExtendedResponse(mid, ctl, result(ctx, code), "1.2", None)
+        return M.ExtendedResponse(mid, ctl, result(ctx, code), _opname(ctx, tag), None)
     if k == "notice":
         return M.ExtendedResponse(mid, ctl, result(ctx, code), NOTICE, None)
     if k == "extended_request":
@@ -343,7 +349,7 @@ def do_op(ctx, sess, side, op, tag):
             mid = ctx.int(f"{tag}.mid", 0, IDMAX + 2)
             code = ctx.int(f"{tag}.code", 0, 80)
             info["mid"], info["code"] = mid, code
-            msg = message_for(ctx, op, mid, code, ctl)
+            msg = message_for(ctx, op, mid, code, ctl, tag)
             info["msg"] = msg
             info["ret"] = sess.receive(msg.pack(po(ctx)))
         elif side == "client":
@@ -369,7 +375,7 @@ def do_op(ctx, sess, side, op, tag):
             if op == "bind_response":
                 info["ret"] = sess.bind_response(mid, None, rc, controls=ctl)
             elif op == "extended_response":
-                info["ret"] = sess.extended_response(mid, "1.2", None, rc, controls=ctl)
+                info["ret"] = sess.extended_response(mid, _opname(ctx, tag), None, rc, controls=ctl)
             elif op == "notice":
                 info["ret"] = sess.extended_response(mid, NOTICE, None, rc)
             elif op == "search_entry":
@@ -426,6 +432,9 @@ def check_step(ctx, side, pre, info, post, props, tag=""):
         fail("C12", "outgoing-stream-shrank")
     req("C12", ctx.eq(post["out"][:n0], pre["out"]), "outgoing-stream-prefix-altered")
     appended = post["out"][n0:]
+    if op.startswith("recv"):
+        # the stream is made of the successful sends only: a delivery (accepted or not) adds nothing
+        req("C12", len(appended) == 0, "receive-contributed-bytes-to-the-stream")
     if rejected:
         # ---- C10: refusal has no wire effect and uses the library's own error type
         if not is_ldap_error(ctx, exc) and op != "search_unencodable":
